@@ -330,9 +330,18 @@ def build_verus_unit(template_path, repo=None):
                 i += 1
             if i >= len(lines):
                 raise Undecided("template %s: unterminated block %s" % (template_path, key))
-            doc = vx(os.path.join(repo, source))
-            it = find_item(doc, key, kind="fn")
-            rendered = render_fn(doc, it, blk)
+            try:
+                doc = vx(os.path.join(repo, source))
+                it = find_item(doc, key, kind="fn")
+                rendered = render_fn(doc, it, blk)
+            except Undecided as ex:
+                # a lost anchor only removes this function from the unit (its obligation becomes undecided);
+                # the remaining functions are still verified unless they call the missing one
+                blk.lost = str(ex)
+                blocks.append(blk)
+                out.append("// [lost anchor] %s: %s" % (key, ex))
+                i += 1
+                continue
             blk.line_start = len("\n".join(out).split("\n")) + 1 if out else 1
             out.append(rendered)
             blk.line_end = len("\n".join(out).split("\n"))
